@@ -97,6 +97,18 @@ pub fn corpus(quick: bool) -> Vec<Gen> {
             }
         }
     }
+    // a consuming prefix, then the recursive reference under a context, with a second alternative
+    // that makes the rule nullable (the enclosing rule can match empty *inside* its own repetition)
+    for m in ["", "@", "_"] {
+        for pre in ["\"a\"", "'a'..'b'"] {
+            for c1 in &ctx {
+                for alt in ["\"\"", "EOI", "\"b\"?", "!\"a\"", "\"b\""] {
+                    out.push(Gen { text: format!("r = {m}{{ {pre} ~ {} ~ \"b\"? | {alt} }}", fill(c1, "r")), class: "prefixed-cycle" });
+                    out.push(Gen { text: format!("r = {m}{{ {pre} ~ {} | {alt} }} q = {{ r ~ \"b\" | {alt} }}", fill(c1, "q")), class: "prefixed-cycle" });
+                }
+            }
+        }
+    }
     // references that do not close a cycle but sit behind nullable prefixes (no false alarms)
     for c1 in &ctx {
         for c2 in &ctx {
@@ -136,6 +148,9 @@ pub fn corpus(quick: bool) -> Vec<Gen> {
                 ("", "s = _{ &\"a\" ~ SOI }"),
                 ("$", "s = { \"\" | \"a\" }"),
                 ("", "s = { t ~ t } t = _{ !\"b\" }"),
+                ("", "NEWLINE = { \"b\" | EOI }"),
+                ("", "ASCII_DIGIT = _{ \"a\"? }"),
+                ("@", "LETTER = { !\"a\" }"),
             ];
             for (si, (m, sdef)) in sdefs.iter().enumerate() {
                 if i >= 5 && !sdef.contains("r?") {
@@ -144,8 +159,41 @@ pub fn corpus(quick: bool) -> Vec<Gen> {
                 if i >= 4 && si >= 3 && quick {
                     continue;
                 }
-                out.push(Gen { text: format!("{sdef} r = {m}{{ {b} }}"), class: "plain" });
+                if i >= 4 && si >= 7 {
+                    continue;
+                }
+                // bodies refer to the callee as `s`; a callee with another name replaces that token
+                let callee = sdef.split(' ').next().unwrap();
+                let body = if callee == "s" { b.clone() } else { replace_ident(b, "s", callee) };
+                out.push(Gen { text: format!("{sdef} r = {m}{{ {body} }}"), class: if callee == "s" { "plain" } else { "builtin-named-callee" } });
             }
+        }
+    }
+    out
+}
+
+fn replace_ident(text: &str, from: &str, to: &str) -> String {
+    // whole-token replacement (bodies are made of quoted literals, operators and identifiers)
+    let mut out = String::new();
+    let mut in_str = false;
+    let chars: Vec<char> = text.chars().collect();
+    let mut i = 0;
+    while i < chars.len() {
+        let c = chars[i];
+        if c == '"' || c == '\'' {
+            in_str = !in_str;
+            out.push(c);
+            i += 1;
+        } else if !in_str && (c.is_alphanumeric() || c == '_') {
+            let st = i;
+            while i < chars.len() && (chars[i].is_alphanumeric() || chars[i] == '_') {
+                i += 1;
+            }
+            let tok: String = chars[st..i].iter().collect();
+            out.push_str(if tok == from { to } else { &tok });
+        } else {
+            out.push(c);
+            i += 1;
         }
     }
     out
